@@ -6,7 +6,7 @@ violations."""
 import importlib, os, re, random
 from genlib import *
 
-def all_cases(rng, tier, per):
+def all_cases(rng, tier, per, gen_tier="quick"):
     cases = []
     here = os.path.dirname(os.path.abspath(__file__))
     for f in sorted(os.listdir(here)):
@@ -17,11 +17,11 @@ def all_cases(rng, tier, per):
             mod = importlib.import_module(m.group(1))
             # public API only: hook-level ops (h.*) may deliberately violate internal preconditions
             # (debug_assert!), where debug and release legitimately differ
-            cs = [c for c in mod.generate(rng, "quick") if len(c) < 6000 and not c.startswith("h.")]
+            cs = [c for c in mod.generate(rng, gen_tier) if len(c) < 6000 and not c.startswith("h.")]
         except Exception:
             continue
         rng.shuffle(cs)
-        cases += cs[:per]
+        cases += cs if per is None else cs[:per]
     return cases
 
 def generate(rng, tier):
@@ -31,8 +31,14 @@ def extra_checks(ctx):
     """Same cases on the release build (no debug assertions, wrapping arithmetic): results must be
     identical to the debug build (a debug-only panic or a release-only wrong value is a violation)."""
     out = {"coverage": {}, "broken": [], "violations": []}
-    rng = random.Random(ctx["seed"] * 1000003 + 14)      # same stream as check's rng for C14
-    cases = generate(rng, ctx["tier"])
+    rng = random.Random(ctx["seed"] * 1000003 + 14)
+    # implementation-only runs are cheap: a much larger share of every property's cases than the
+    # model comparison above; ALL of the thorough generators' cases when the tier is thorough or the
+    # drift sentinel escalated the budget
+    if ctx.get("gen_tier", ctx["tier"]) == "thorough":
+        cases = all_cases(rng, ctx["tier"], None, "thorough")
+    else:
+        cases = all_cases(rng, ctx["tier"], 2500, "quick")
     lines = ["%d %s" % (i, c) for i, c in enumerate(cases)]
     res = {}
     for vname, kw in (("debug", dict(release=False)), ("release", dict(release=True))):
